@@ -1,6 +1,7 @@
 CONSTANTS
   Ext <- NoExtensions
   Conv = "bundled"
+  Variants = FALSE
   Syntax <- OnlyRange
   Defects = FALSE
   Mode = "sim"
